@@ -8,6 +8,11 @@
       observation: effect tokens  T:<name>  H:<name>:<meta>:<payload>  M:<meta>:<payload>  P:<topic>:<meta>:<payload>
                    followed by  R:<ok|marshal|topic|hook|modify|publish>
 
+    busseq <c|e> <hook> <mod> <info> <send>*        several values through ONE bus, in this order
+         send   <name>/<topic>/<pub>/<enc>/<vinfo>   topic  k:<hex> | err : what the configured GeneratePublishTopic yields for THAT
+                value (it may read the value, or state the application changed before this send), computed outside the bus
+      observation: the effect tokens of every send as for `bus`, sends separated by the token `|`
+
     proc <c|e|g> <flags> <oh> <reg> <info> <msg>*
          flags  <AckCommandHandlingErrors><AckOnUnknownEvent> as 0/1     oh  n|p (OnHandle nil / pass-through)
          reg    <namehex>.<ty>,…     msg  <meta>/<payload>/<ctx n|s>/<dec per Go type: x|hex,…>/<outcomes o|e|p per handler>/<sent -|ty.hex>
@@ -98,7 +103,7 @@ def parseBus : List String → Option BusReq
 def busModel (r : BusReq) : String :=
   match parseCallback "x-hook" r.hookS, parseCallback "x-mod" r.modS with
   | some hook, some mod =>
-    let cfg : BusCfg Unit := ⟨fun _ => r.enc, fun _ => r.name, r.topicOf, hook, mod, r.pubOk⟩
+    let cfg : BusCfg Unit := ⟨fun _ => r.enc, fun _ => r.name, fun n _ => r.topicOf n, hook, mod, r.pubOk⟩
     let (effs, res) := send cfg ()
     " ".intercalate (effs.map effStr ++ ["R:" ++ errStr res])
   | _, _ => "bad-op"
@@ -376,6 +381,50 @@ def procMonitor (r : ProcReq) (obs : List String) : String := Id.run do
         if let some e := monSingle r m j h d then return e
   return "ok"
 
+/-! ### sequences through one bus -/
+
+def parseSend (isCmd : Bool) (hook mod : String) (s : String) : Option BusReq :=
+  match s.splitOn "/" with
+  | [name, topic, pub, enc, vinfo] =>
+    if topic.startsWith "p:" then none else parseBus [if isCmd then "c" else "e", name, topic, hook, mod, pub, enc, vinfo]
+  | _ => none
+
+def parseBusSeq : List String → Option (List BusReq)
+  | b :: hook :: mod :: _info :: sends => do
+    let isCmd ← (match b with | "c" => some true | "e" => some false | _ => none)
+    sends.mapM (parseSend isCmd hook mod)
+  | _ => none
+
+def splitOnTok (sep : String) (l : List String) : List (List String) :=
+  (l.foldr (fun t acc => if t == sep then [] :: acc else match acc with
+    | [] => [[t]]
+    | a :: r => (t :: a) :: r) [[]])
+
+def busSeqModel (rs : List BusReq) : String :=
+  match rs with
+  | [] => "-"
+  | r0 :: _ =>
+    match parseCallback "x-hook" r0.hookS, parseCallback "x-mod" r0.modS with
+    | some hook, some mod =>
+      -- the value is the position in the sequence; encoding, name and generated topic are read off the value
+      let arr := rs.toArray
+      let cfgOf (r : BusReq) : BusCfg Nat :=
+        ⟨fun i => (arr[i]?).bind (·.enc), fun i => ((arr[i]?).map (·.name)).getD "",
+         fun n i => (arr[i]?).bind (fun q => q.topicOf n), hook, mod, r.pubOk⟩
+      let outs := sendSeq ((List.range rs.length).zip rs |>.map (fun p => (cfgOf p.2, p.1)))
+      " | ".intercalate (outs.map (fun o => " ".intercalate (o.1.map effStr ++ ["R:" ++ errStr o.2])))
+    | _, _ => "bad-op"
+
+/-- each send on its own: published once on the topic generated for that value -/
+def busSeqMonitor (rs : List BusReq) (obs : List String) : String := Id.run do
+  let parts := if rs.isEmpty && obs == ["-"] then [] else splitOnTok "|" obs
+  if parts.length != rs.length then return "violated:length"
+  for (r, o) in rs.zip parts do
+    if o.isEmpty then return "bad-op"
+    let v := busMonitor r o
+    if v != "ok" then return v
+  return "ok"
+
 def splitObs (l : List String) : List String × List String :=
   (l.takeWhile (· != "##"), (l.dropWhile (· != "##")).drop 1)
 
@@ -389,6 +438,15 @@ def handle (line : String) : String :=
     let (req, obs) := splitObs rest
     match parseBus req with
     | some r => if obs.isEmpty then "bad-op" else busMonitor r obs
+    | none => "bad-op"
+  | "M" :: "busseq" :: rest =>
+    match parseBusSeq rest with
+    | some rs => busSeqModel rs
+    | none => "bad-op"
+  | "P" :: "busseq" :: rest =>
+    let (req, obs) := splitObs rest
+    match parseBusSeq req with
+    | some rs => if obs.isEmpty then "bad-op" else busSeqMonitor rs obs
     | none => "bad-op"
   | "M" :: "proc" :: rest =>
     match parseProc rest with
